@@ -97,6 +97,9 @@ let () =
     (try
       toks := Array.of_list (List.filter (fun s -> s <> "") (split_line line));
       pos := 0;
+      (* LFOLD prefix: the characters callback before the LF-hack fix (Model/XmlFrontLfOld.v) *)
+      let old_lf = (Array.length !toks > 0 && !toks.(0) = "LFOLD") in
+      if old_lf then begin toks := Array.sub !toks 1 (Array.length !toks - 1) end;
       if !toks.(0) = "V" then begin
         (* events mode:  V <lang> <n> node*   ->   EVS <canonical 0|1> <events of the tree, notation of the harness>
            (canonical: root_canon with no embedded tree accepted) *)
@@ -126,6 +129,30 @@ let () =
          | _ -> print_endline "EVS 0");
         raise Exit
       end;
+      if !toks.(0) = "W" then begin
+        (* W <lang> <n> node*   ->   W <root_canon with every embedded tree accepted 0|1> *)
+        ignore (next ());
+        let lid = next_n () in
+        let n = next_int () in
+        let roots = rep n p_node in
+        (match get_table main_table lid, roots with
+         | Some l, [root] -> Printf.printf "W %d\n" (if root_canon l (fun _ _ -> true) root then 1 else 0)
+         | _ -> print_endline "W 0");
+        raise Exit
+      end;
+      if !toks.(0) = "K" then begin
+        (* clause mode:  K <events>   ->   K <first clause violated, every embedded tree accepted> <the same, none accepted>
+           (Model/XmlFrontCanonEvents.evs_clause; 0 = evs_canon holds).  For documents the C accepted: the nested parse
+           succeeded, and no clause looks inside an embedded tree, so the nested parse is answered with an empty tree. *)
+        ignore (next ());
+        let rec evs acc = if more () then evs (p_event () :: acc) else List.rev acc in
+        let events = evs [] in
+        let sub (_ : n list) = Inl { xt_lang = N0; xt_charset = N0; xt_roots = [] } in
+        let k1 = evs_clause main_table sub [n_of_int 60] (fun _ _ -> true) events in
+        let k2 = evs_clause main_table sub [n_of_int 60] (fun _ _ -> false) events in
+        Printf.printf "K %d %d\n" (int_of_n k1) (int_of_n k2);
+        raise Exit
+      end;
       if !toks.(0) = "R" then begin
         (* replay mode:  R <nsub> {<doc hex> <answer>}* <events>   ->   Q <error> <skip_lvl> <depth> <pending> <charset> <lang> <n> node* *)
         ignore (next ());
@@ -148,7 +175,7 @@ let () =
           match Hashtbl.find_opt subs h with
           | Some a -> a
           | None -> missing := h :: !missing; Inr (n_of_int 996) in
-        let c = run main_table sub [n_of_int 120] init_ctx events in
+        let c = (if old_lf then run_old else run) main_table sub [n_of_int 120] init_ctx events in
         (match !missing with
          | _ :: _ -> Printf.printf "NEED %s\n" (List.hd (List.rev !missing))
          | [] ->
@@ -184,7 +211,7 @@ let () =
         match Hashtbl.find_opt subs h with
         | Some a -> a
         | None -> missing := h :: !missing; Inr (n_of_int 996) in
-      let r = tree_from_xml main_table sub input events st in
+      let r = (if old_lf then tree_from_xml_old else tree_from_xml) main_table sub input events st in
       (match !missing with
        | h :: _ -> Printf.printf "NEED %s\n" (List.hd (List.rev !missing))
        | [] ->
